@@ -85,3 +85,48 @@ def check(ctx):
                        "deque-level trace of each extraction is validated against ExtractIter")
     ctx.assume("every link wraps its suspension in try/except so that tracebacks through athrow()/aclose() are complete on 3.9-3.11")
     explore(ctx)
+    backport_leg(ctx)
+
+
+def backport_leg(ctx):
+    """growth beyond the listed quantifier: the rows of glue_async_generator (Backport.tla), replayed on 3.12"""
+    import json
+    from ..common import BUILD, VERIF, available_interpreters, child_env, run
+    from ..tlc import derive_cfg, run_tlc
+    interps = available_interpreters(("3.12",))
+    if "3.12" not in interps:
+        ctx.assume("no interpreter with the async_generator package: the backport rows were model-checked but not replayed")
+        return
+    n = 3 if ctx.tier == "quick" else 4
+    cfg = derive_cfg("Backport.cfg", f"Backport_{n}.cfg", {"MaxLinks": str(n)})
+    res = ctx.tlc(run_tlc("Backport", cfg, workers=1, timeout=1800, name="backport_c03"),
+                  f"chains up to {n} links over coroutines, native and backport async generators: glue rows == throw path")
+    if not res.ok:
+        ctx.violation(f"Backport model: {res.violated}: {res.trace_actions}", res.trace_text[-2000:])
+        return
+    cases = res.emitted
+    if not cases:
+        raise MachineryError("no backport chains emitted")
+    d = BUILD / "chains"
+    d.mkdir(parents=True, exist_ok=True)
+    cpath, opath = d / "backport_cases.json", d / "backport_out.json"
+    cpath.write_text(json.dumps({"cases": cases}))
+    p, _ = run([interps["3.12"], "-W", "ignore::DeprecationWarning", str(VERIF / "harness/drivers/backport_driver.py"), str(cpath), str(opath)],
+               timeout=1800, env=child_env("3.12"))
+    if p.returncode != 0:
+        raise MachineryError(f"backport driver failed: {p.stderr[-1500:]}")
+    ctx.explanation += ("; Backport.tla does the same for the async_generator backport (the rows registered by glue_async_generator: "
+                        "AsyncGenerator -> its coroutine, ANextIter -> coroutine wrapper, hidden step frames, hidden and pruned "
+                        "yield_): every chain over {coroutine, native async generator, backport generator} with anext / asend / "
+                        "async for / athrow / aclose / yield_from_ links is built and extracted on 3.12")
+    n_ok = 0
+    for o in json.loads(opath.read_text()):
+        case = cases[o["idx"]]
+        what = "%s / %s" % ([(l["k"], l["via"]) for l in case["chain"]], case["term"])
+        if "skip" in o:
+            raise MachineryError(f"[3.12] backport chain {what}: {o['skip']}")
+        n_ok += 1
+        for b in o["bad"]:
+            ctx.violation(f"[3.12] backport chain {what}: {b}", {"case": case})
+    ctx.replays += n_ok
+    ctx.count("backport_chains", n_ok)
